@@ -177,4 +177,5 @@ def run(ck):
     common.import_results(ck, C06, "2", "dispatch_events", "3")
     common.import_results(ck, C05, "5", "Timer", "1b")
     common.import_results(ck, C11, "2", "Poll::poll", "1")
+    common.import_results(ck, C11, "2", "LoopSignal::wakeup", "1")
     common.import_results(ck, C17, "2", "IoLoopInner", "3")
